@@ -211,6 +211,27 @@ def name_pairing(F):
         r.ob(ok, {"kind": X, "stored_in_field": field, "emitted_by": meth})
         if not ok:
             r.violate("%s | %s" % (ei["path"], X), F.loc(ei), "name subsection %s is stored in field `%s` but re-emitted by %s" % (X, field, meth or "nothing"))
+    # a name subsection that is emitted under a condition is conditioned on *its own* field: `if !self.data_names.is_empty()
+    # { names.data(&self.data_names) }` — a guard that looks at another kind's names drops these whenever the other kind has none
+    from vlib.facts import guard_conditions
+    for c in walk(ei["body"]):
+        if not (c.get("k") == "MethodCall" and "NameSection" in (c.get("recv_ty") or "") and c.get("args")):
+            continue
+        src_f = {x["name"] for a_ in c["args"] for x in walk(a_) if x.get("k") == "Field" and x["name"].endswith("_names")}
+        if len(src_f) != 1:
+            continue
+        own = next(iter(src_f))
+        for pol, cond in guard_conditions(ei["body"], c):
+            if pol == "pat":
+                continue
+            gf = {x["name"] for x in walk(cond) if x.get("k") == "Field" and x["name"].endswith("_names")}
+            if not gf:
+                continue
+            ok = gf == {own}
+            r.ob(ok, {"subsection from": own, "guarded by": sorted(gf)})
+            if not ok:
+                r.violate("%s | %s guarded by %s" % (ei["path"], own, "+".join(sorted(gf - {own}))), F.loc(ei, c),
+                          "the name subsection built from `%s` is emitted only under a condition on `%s`: these names are dropped whenever the other kind has none" % (own, sorted(gf - {own})))
     return r
 
 
@@ -583,4 +604,30 @@ def type_field_flow(F):
                           "encode_type computes `%s` from %s%s%s instead of copying the type's own `%s`: the encoded type is not the one requested" % (
                               d, sorted(used) or "nothing", (" with operator(s) " + ",".join(ops)) if ops else "", (" and literal(s) " + ",".join(lits)) if lits else "", want))
     r.count("copied_attributes", n)
+    # writer/reader agreement on how a supertype index is packed: what the adders store with PackedIndex::from_<K>_index the
+    # encoder must read back with as_<K>_index — an index packed as another kind reads back as None and the supertype is lost
+    import re as _re
+    packs = {}
+    for g in F.fns:
+        if g.get("body") is None or not (g.get("self_adt") or "").endswith("ModuleTypes"):
+            continue
+        for c in walk(g["body"]):
+            if c.get("k") in ("Call", "MethodCall"):
+                m_ = _re.search(r"PackedIndex::from_([a-z_]+)_index$", (c.get("callee") or ""))
+                if m_:
+                    packs.setdefault(m_.group(1), []).append((g, c))
+    reads = set()
+    for c in walk(fn["body"]):
+        if c.get("k") in ("Call", "MethodCall"):
+            m_ = _re.search(r"PackedIndex::as_([a-z_]+)_index$", (c.get("callee") or ""))
+            if m_:
+                reads.add(m_.group(1))
+    if packs and reads:
+        for kind, sites in sorted(packs.items()):
+            for g, c in sites:
+                ok = kind in reads
+                r.ob(ok, {"stored by": g["name"], "packed as": kind, "encoder reads": sorted(reads)})
+                if not ok:
+                    r.violate("%s | supertype packed as %s" % (g["path"], kind), F.loc(g, c),
+                              "%s stores the supertype with PackedIndex::from_%s_index but encode_type only reads as_%s_index: the declared supertype is silently dropped from the encoded type" % (g["name"], kind, "/".join(sorted(reads))))
     return r
